@@ -93,6 +93,9 @@ func checkC07(c *Ctx) {
 	ruleDupDeep(c, u, "C07.dup")
 	ruleNewObjectCopies(c, u, "C07.obj")
 	ruleFreshLiteralsAndStores(c, u)
+	// independent copies need independent storage: no package-level value (a shared empty backing array, a pool) is
+	// handed out by the constructors (rules of C16.singletons)
+	borrowRule(c, "C16", "C16.singletons", "C07.state")
 
 	// ---- C07.objshare: objects are shared by reference, so reading a property hands out the stored value itself:
 	// Object.GetProperty returns the element found in the property table (or the object), never something built
